@@ -344,7 +344,26 @@ def st_case(draw):
             "x0": None if draw(st.integers(0, 2)) == 0 else draw(A.arrays([n], dt, small_explicit=6)),
             "P": draw(st_precond()),
             "Aform": aform, "Pform": pform, "col": col,
-            "max_iter": _max_iter(draw, n), "tol": draw(st.sampled_from(TOLS))}
+            "max_iter": _max_iter(draw, n), "tol": draw(st.sampled_from(TOLS)),
+            # memory layout of the caller's x (and b): C-contiguous, every other element of a larger buffer, a
+            # column of a 2-D array (only for shape [n,1]), a reversed view
+            "xlayout": draw(st.sampled_from(["c", "c", "c", "strided", "column", "reversed"]))}
+
+
+def _in_layout(v, layout):
+    """An array with v's shape, dtype and values held in the requested memory layout (a view of a larger buffer)."""
+    if layout == "strided":
+        big = np.zeros((2 * v.shape[0],) + v.shape[1:], dtype=v.dtype)
+        big[::2] = v
+        return big[::2]
+    if layout == "column" and v.ndim == 2:
+        big = np.zeros((v.shape[0], 3), dtype=v.dtype)
+        big[:, 1:2] = v
+        return big[:, 1:2]
+    if layout == "reversed":
+        big = np.ascontiguousarray(v[::-1])
+        return big[::-1]
+    return v
 
 
 def check_case(case):
@@ -388,8 +407,10 @@ def check_case(case):
 
     # ---- the solver, exactly as a caller would use it
     shape = [n, 1] if case["col"] else [n]
-    x = x0.reshape(shape).copy()
-    b_in = b.reshape(shape).copy()
+    x = _in_layout(x0.reshape(shape).copy(), case.get("xlayout", "c"))
+    b_in = _in_layout(b.reshape(shape).copy(), case.get("xlayout", "c"))
+    if case.get("xlayout", "c") != "c":
+        r.label("x-layout:" + case["xlayout"])
     Aop = _wrap(Am, case["Aform"], case["col"], n)
     Pop = _wrap(Pm, case["Pform"], case["col"], n)
     try:
